@@ -12,7 +12,7 @@ RULE = ("discretize: random annotations (overlapping same-label tracks, 1-3 labe
         "None / larger / smaller than the extent, resolution a number or a SlidingWindow with duration = 1..5 steps, "
         "optional duration and explicit label lists (permuted, with an absent label), and the falsy-but-valid duration=0, labels=[] and an empty support segment; track-collision families (a support cutting one track down to exactly another segment with the same track name); one_hot_encoding: annotation "
         "cropped to the support, support a Segment or a Timeline with a hole, explicit label lists incl. a missing "
-        "label (ValueError), followed by one_hot_decoding of the result; regime K0; non-trivial = at least two "
+        "label (ValueError), followed by one_hot_decoding of the result; regime K0; discretize also on decimal resolutions (10 ms, 16 ms, 0.3 s ...) and bounds, judged in the driver against the property's clauses with exact rationals (frame count, window, centre rule with its one-step margin); non-trivial = at least two "
         "frames active for some label")
 
 
@@ -84,11 +84,31 @@ def generate(rng, tier):
             lab = []                               # an explicit empty label list
         cases.append({"k": "onehot", "recs": recs, "sup": sup, "dur": dur, "step": step, "labels": lab,
                       "via_feature": rng.random() < 0.3})
+    # decimal resolutions and bounds (10 ms frames, times written with two or three decimals), as users have them
+    for _ in range(3000 if tier == "thorough" else 300):
+        step = rng.choice([0.01, 0.02, 0.016, 0.1, 0.25, 0.005, 0.3])
+        ratio = rng.choice([1, 1, 2, 2.5, 3, 5])
+        nlab = rng.randrange(1, 4)
+        recs = []
+        t0 = rng.choice([0.0, 0.0, 12.34, -3.3, 100.5])
+        for _r in range(rng.randrange(1, 7)):
+            a_ = t0 + round(rng.uniform(0, 40 * step * 10), rng.choice([1, 2, 3]))
+            recs.append([[float(a_).hex(), float(a_ + max(2 * step, round(rng.uniform(step, 60 * step), rng.choice([1, 2, 3])))).hex()],
+                         rng.choice(["_", "x", 0]), ["a", "b", 0][rng.randrange(nlab)]])
+        lo = min(float.fromhex(r[0][0]) for r in recs)
+        hi = max(float.fromhex(r[0][1]) for r in recs)
+        x = rng.random()
+        sup = None if x < 0.4 else [float(lo - round(rng.uniform(0, 1), 2)).hex(), float(hi + round(rng.uniform(0, 1), 2)).hex()] if x < 0.7 \
+            else [float(lo + round(rng.uniform(0, (hi - lo) / 3), 2)).hex(), float(hi - round(rng.uniform(0, (hi - lo) / 3), 2)).hex()]
+        cases.append({"k": "discf", "recs": recs, "sup": sup, "step": float(step).hex(), "dur": float(step * ratio).hex(),
+                      "as_window": ratio != 1 or rng.random() < 0.3,
+                      "labels": None if rng.random() < 0.7 else rng.sample(["a", "b", 0, "zz"], 4),
+                      "duration": None if rng.random() < 0.7 else float(round(rng.uniform(step, 300 * step), 2)).hex()})
     kinds = {}
     for c in cases:
         kinds[c["k"]] = kinds.get(c["k"], 0) + 1
     return {"cases": cases, "meta": {"exhaustive": False, "kinds": kinds,
-                                     "dur_over_step": gen.stats(cases, {"ratio": lambda c: c["dur"] // c["step"]})}}
+                                     "dur_over_step": gen.stats(cases, {"ratio": lambda c: (c["dur"] // c["step"]) if isinstance(c["dur"], int) else "decimal"})}}
 
 
 def _odisc(tb, f):
@@ -100,8 +120,66 @@ def _odisc(tb, f):
             "wstart": tb.u(w.start), "wdur": tb.u(w.duration), "wstep": tb.u(w.step)}
 
 
+def _run_discf(case):
+    """discretize on decimal inputs, judged against the clauses of the property with exact rational arithmetic"""
+    from fractions import Fraction as Fr
+    import numpy as np
+    from pyannote.core import Annotation, Segment, SlidingWindow
+    fl = float.fromhex
+    a = Annotation()
+    for (s0, s1), t_, l_ in case["recs"]:
+        a[Segment(fl(s0), fl(s1)), t_] = l_
+    step, dur = fl(case["step"]), fl(case["dur"])
+    kw = {"resolution": SlidingWindow(duration=dur, step=step, start=7.0) if case["as_window"] else step}
+    if case["sup"] is not None:
+        kw["support"] = Segment(fl(case["sup"][0]), fl(case["sup"][1]))
+    if case["labels"] is not None:
+        kw["labels"] = list(case["labels"])
+    if case["duration"] is not None:
+        kw["duration"] = fl(case["duration"])
+    f = a.discretize(**kw)
+    d = np.asarray(f.data)
+    w = f.sliding_window
+    fdur = dur if case["as_window"] else step
+    S = kw.get("support") or a.get_timeline().extent()
+    if case["labels"] is not None:
+        labels = list(case["labels"])
+    else:
+        # columns default to the labels present within the support (the annotation is cropped first), in labels() order
+        labels = [l for l in a.labels()
+                  if any(min(Fr(s.end), Fr(S.end)) - max(Fr(s.start), Fr(S.start)) > Fr(1e-6)
+                         for s, _t, l2 in a.itertracks(yield_label=True) if l2 == l)]
+    ok = d.ndim == 2 and d.shape[1] == len(labels) and list(f.labels) == labels and bool(np.isin(d, (0, 1)).all())
+    ok = ok and w.start == S.start and w.step == step and w.duration == fdur
+    N = d.shape[0]
+    q = (Fr(fl(case["duration"])) if case["duration"] is not None else Fr(S.end) - Fr(S.start)) / Fr(step)
+    if case["duration"] is not None:
+        ok = ok and abs(Fr(N) - q) <= Fr(1, 2) + Fr(1, 10 ** 9)        # round(duration / step), either way at a tie
+    else:
+        ok = ok and abs(Fr(N) - q) <= 1 + Fr(1, 10 ** 9)               # within one frame of extent / step
+    st, hs = Fr(step), Fr(fdur) / 2
+    for k_, lab in enumerate(labels):
+        segs = sorted((Fr(s.start), Fr(s.end)) for s, _t, l in a.itertracks(yield_label=True) if l == lab)
+        merged = []
+        for x0, x1 in segs:
+            if merged and x0 <= merged[-1][1]:
+                merged[-1][1] = max(merged[-1][1], x1)
+            else:
+                merged.append([x0, x1])
+        inside = [[max(x0, Fr(S.start)), min(x1, Fr(S.end))] for x0, x1 in merged]
+        for j in range(N):
+            c = Fr(w.start) + j * st + hs
+            if any(x0 <= c - st and c + st <= x1 for x0, x1 in inside):
+                ok = ok and d[j, k_] == 1
+            elif all(c + st <= x0 or x1 <= c - st for x0, x1 in merged):
+                ok = ok and d[j, k_] == 0
+    return {"ok": bool(ok), "n": int(N)}
+
+
 def run(case):
     from pyannote.core import SlidingWindow
+    if case["k"] == "discf":
+        return _run_discf(case)
     from pyannote.core.utils.numpy import one_hot_encoding, one_hot_decoding
     tb = TB("K0")
     tb.enter()
@@ -150,6 +228,8 @@ def _enc_od(o):
 
 def encode(case, o):
     e = enc
+    if case["k"] == "discf":
+        return f"KDriver {e.z(o['n'])} {e.b(o['ok'])}"
     labs = "None" if case["labels"] is None else f"(Some {enc_names(case['labels'])})"
     if case["k"] == "disc":
         return (f"KDisc 0 {enc_triples(case['recs'])} {e.opt(case['sup'], e.seg)} {e.z(case['dur'])} {e.z(case['step'])} "
@@ -160,6 +240,8 @@ def encode(case, o):
 
 
 def nontrivial(case, o):
+    if case["k"] == "discf":
+        return o.get("n", 0) >= 3
     return o["obs"] is not None and any(sum(1 for v in c if v > 0) >= 2 for c in o["obs"]["cols"])
 
 
@@ -171,6 +253,8 @@ def known_match(entry, case, obs, code):
 
 def shrink(case):
     recs = case["recs"]
+    if case["k"] == "discf" and len(recs) <= 1:
+        return
     for i in range(len(recs)):
         yield {**case, "recs": recs[:i] + recs[i + 1:]}
     if case.get("labels") is not None:
